@@ -11,7 +11,7 @@ WORDS_MSG = ("inter_send", "inter_recv")      # reserved in messaging methods th
 WORDS_ALL = ("inter_actor",)                  # reserved in every method that takes parameters (check_inter_actor): the actor's binder
 RESERVED_FLAT = ("inter_actor", "inter_send", "inter_recv")   # a FLATTENED pattern must not produce these (check_flat_ident)
 PLAIN = ["a", "b", "c", "x", "y", "n", "val", "key", "item", "v", "k", "q", "w", "h", "t"]
-ODD = ["a_b", "x_y", "_u", "k9", "b_c"]
+ODD = ["a_b", "x_y", "_u", "k9", "b_c", "r#type", "r#match", "r#a", "r#b_c"]
 SCALARS = ["u8", "i64", "String", "Vec<u8>", "Option<u8>", "&'static str", "bool", "(u8, i8)"]
 SELF_TYPES = ["Self", "&Self", "&mut Self", "Option<Self>", "Vec<Self>", "(Self, u8)", "[Self; 2]", "Box<Self>", "<Self as Tr>::Out",
               "fn(Self) -> Self", "Box<dyn Fn(Self) -> Self + Send>", "Result<Self, String>", "&[Self]", "std::sync::Arc<Self>"]
@@ -277,7 +277,9 @@ def class_names(params):
                 return []
             ws = [y for x in subs for y in w(x)]
             return ws or ["__"]
-        out.append("_".join(w(p)))
+        ws = w(p)
+        # name::combined_ident: a single binder is kept as written, two or more are joined without their `r#` (spec_words)
+        out.append(ws[0] if len(ws) == 1 else "_".join(x[2:] if x.startswith("r#") else x for x in ws))
     return out
 
 
@@ -364,7 +366,7 @@ def oracle_method(m, mdl, actor_ty, direct_param):
         pt = pat_of_text(ptxt)
         if pt[0] == "id" and P[i] != pt[3]:
             probs.append("parameter %d of %s is named %s, the user's identifier is %s" % (i, m["name"], P[i], pt[3]))
-        if not re.match(r"^[A-Za-z_][A-Za-z0-9_]*$", P[i]):
+        if not re.match(r"^(r#)?[A-Za-z_][A-Za-z0-9_]*$", P[i]):
             probs.append("parameter %d of %s is not one identifier: `%s`" % (i, m["name"], P[i]))
     if len(set(P)) != len(P):
         probs.append("handle method %s binds an identifier twice: %s" % (m["name"], P))
